@@ -277,6 +277,34 @@ def check_case(case, shard):
         got2 = ws.data(model)
         if list(got2) != expect + list(cfg.auxdata) or list(cfg.auxdata) != aux:
             shard.violate("C12/data-not-repeatable", "a second Workspace.data() call returned something else (aliasing)", case, "workspace_data")
+        # ---- the data vector follows the MODEL's layout also when the model covers fewer channels than the workspace
+        # (a model of the pruned workspace, or of a patch that removes a channel, given to the full workspace)
+        if len(cfg.channels) >= 2:
+            drop = sorted(cfg.channels)[rng.randrange(len(cfg.channels))]
+            ci = next(i for i, c_ in enumerate(ws_spec["channels"]) if c_["name"] == drop)
+            sub_models = []
+            try:
+                sub_models.append(("pruned workspace", ws.prune(channels=[drop]).model(measurement_name=mname)))
+            except Exception:
+                pass
+            try:
+                oi = next(i for i, o_ in enumerate(ws_spec["observations"]) if o_["name"] == drop)
+                sub_models.append(("patch removing a channel", ws.model(measurement_name=mname, patches=[[{"op": "remove", "path": f"/channels/{ci}"}, {"op": "remove", "path": f"/observations/{oi}"}]])))
+            except Exception:
+                pass
+            for how, m2 in sub_models:
+                if drop in m2.config.channels:
+                    continue
+                want2 = [x for c in m2.config.channels for x in obs[c]] + list(m2.config.auxdata)
+                try:
+                    got3 = list(ws.data(m2))
+                except Exception as e_:
+                    got3 = f"{type(e_).__name__}: {str(e_)[:100]}"
+                if got3 != want2:
+                    shard.violate("C12/workspace-data-layout", f"Workspace.data(model of the {how}, channel {drop} gone) = {str(got3)[:200]}, the model's layout needs {want2[:12]}... ({len(want2)} entries)", case, "workspace_data")
+                else:
+                    shard.ok("workspace_data")
+                    shard.covered("workspace_data_models", how)
         # ---- permutations: identical config and likelihood
         snap = config_snapshot(model)
         pars = gen.gen_point(rng, bounds)
